@@ -31,6 +31,7 @@ K = {
     "lead_crlf": b"\r\nGET / HTTP/1.1\r\n\r\n",
     "pipe3": b"GET /1 HTTP/1.1\r\n\r\nGET /2 HTTP/1.1\r\n\r\nGET /3 HTTP/1.1\r\n\r\n",
     "dup_host": b"GET / HTTP/1.1\r\nHost: a\r\nHost: b\r\n\r\n",
+    "expect": b"POST / HTTP/1.1\r\nExpect: 100-continue\r\nContent-Length: 3\r\n\r\nabcGET /2 HTTP/1.1\r\n\r\n",
     "pct": b"GET /a%41 HTTP/1.1\r\nX-Rate: 100%\r\nX-Other: %s %d\r\n\r\n",
     "chunk_pipe": b"POST / HTTP/1.1\r\n" + CH + b"\r\n2\r\nab\r\n0\r\n\r\nGET /2 HTTP/1.1\r\n\r\n",
     "chunk_bigsize": b"POST / HTTP/1.1\r\n" + CH + b"\r\n00A\r\n0123456789\r\n0\r\n\r\n",
